@@ -1,6 +1,6 @@
 /- C19: the semantic option view of CoAP re-encodes to the syntactic field sequence. -/
 import Schc.Proofs.Tiling
-import Schc.Proofs.BufAdd
+import Schc.Proofs.BitsMore
 import Std.Data.String.ToNat
 
 namespace Schc
